@@ -7,28 +7,45 @@ loop uses it: `pending` first, user requests only through the gate `selectEnable
 incoming packets ungated, `clean` on failure). Ghost wire view and monitors: Model/Client/Spec.lean.
 All theorems: every `max` with 1 ≤ max ≤ 65535, every op sequence, manual acks on/off.
 
-Corner cases in which the as-is code violates a clause are named triggers (Spec.lean); for each the
-full clause is refuted on a concrete run (`…_fails`, by `decide`) and proved for all runs that
-avoid exactly that trigger (`…_partial`). v4 results without a trigger hypothesis are full strength.
+For the MQTT 3.1.1 client every clause is proved at full strength. For MQTT 5 one corner case
+remains in which clauses 1 and 3 fail; it lies in the EVENT LOOP, not in the state machine, and is
+a named trigger (Spec.lean): `unsafeConnack` (#17 residual: the loop replays `pending` without
+looking at a Receive Maximum the broker lowered in its CONNACK). The full clause is refuted on a
+concrete run (`…_fails`, by `decide`) and proved for all runs that avoid exactly that trigger
+(`…_partial`). Theorems without a trigger hypothesis are full strength.
 -/
 import Proofs.Lemmas.ClientTheorems
 namespace C07
 open Client Client.Spec
 
-/-! ### runs used as witnesses / non-vacuity examples -/
-/-- #11: Q2 A(1), Q1 B(2), Q1 C(3); PUBREC 1; PUBACK 2; Q1 D → id 1 again -/
+/-! ### runs used as witnesses / regression and non-vacuity examples -/
+/-- Q2 A(1), Q1 B(2), Q1 C(3); PUBREC 1; PUBACK 2; Q1 D: id 1 still awaits PUBCOMP, D is parked
+    (formerly #11: D went out with id 1) -/
 def run11 : List LOp :=
   [.user (.publish 2 1), .user (.publish 1 2), .user (.publish 1 3), .inc (.pubrec 1 0), .inc (.puback 2 0),
    .user (.publish 1 4)]
-/-- #12: A(1), B(2); PUBACK 2; C parks on 1; connection fails -/
+/-- A(1), B(2); PUBACK 2; C parks on 1; connection fails (formerly #12: C stayed parked for ever) -/
 def run12 : List LOp := [.user (.publish 1 1), .user (.publish 1 2), .inc (.puback 2 0), .user (.publish 1 3), .fail]
-/-- #14 (v5): A(1), B(2); PUBACK 2; C parks on 1; PUBACK(1, QuotaExceeded) -/
+/-- v5: A(1), B(2); PUBACK 2; C parks on 1; PUBACK(1, QuotaExceeded) (formerly #14: C never released) -/
 def run14 : List LOp := [.user (.publish 1 1), .user (.publish 1 2), .inc (.puback 2 0), .user (.publish 1 3), .inc (.puback 1 151)]
-/-- #15 (v5): Q2 A(1); PUBREC(1, UnspecifiedError) -/
+/-- v5: Q2 A(1); PUBREC(1, UnspecifiedError) (formerly #15: `inflight` stayed 1) -/
 def run15 : List LOp := [.user (.publish 2 1), .inc (.pubrec 1 128)]
-/-- #17 (v5): A(1), B(2); CONNACK receive_max = 2 (limit 3 → 2); PUBACK 1; C gets id 3 -/
+/-- #17 (v5, residual): A(1), B(2); the connection fails; the broker's next CONNACK says Receive
+    Maximum 1; the loop replays both -/
 def run17 : List LOp :=
-  [.user (.publish 1 1), .user (.publish 1 2), .inc (.connack true false (some 2) none), .inc (.puback 1 0), .user (.publish 1 3)]
+  [.user (.publish 1 1), .user (.publish 1 2), .fail, .inc (.connack true false (some 1) none), .pend, .pend]
+/-- v5: the limit is lowered below the id counter while nothing is in use (formerly #17: id 3 under limit 2) -/
+def run17ok : List LOp :=
+  [.user (.publish 1 1), .user (.publish 1 2), .inc (.puback 1 0), .inc (.puback 2 0),
+   .inc (.connack true false (some 2) none), .user (.publish 1 3)]
+/-- Q2 A(1), B(2) both received; C(3) acknowledged; D parks on id 1 (its release is pending);
+    failure → `pending = [PubRel 1, PubRel 2, D]`; both releases replayed; second failure →
+    `pending = [PubRel 1, PubRel 2, D]` again (what the state held goes in front): D is numbered
+    after the releases are registered and parks again (with the loop order of before,
+    `[D, PubRel 1, PubRel 2]`, D went out with id 2 while release 2 was still to come) -/
+def run24 : List LOp :=
+  [.user (.publish 2 1), .inc (.pubrec 1 0), .user (.publish 2 2), .inc (.pubrec 2 0), .user (.publish 1 3),
+   .inc (.puback 3 0), .user (.publish 1 4), .fail, .pend, .pend, .fail, .pend, .pend, .pend]
 /-- a benign run with an out-of-order ack, a wrap-around collision and its resolution -/
 def runOk : List LOp :=
   [.user (.publish 1 1), .user (.publish 2 2), .inc (.puback 2 0), .user (.publish 1 3), .inc (.puback 1 0),
@@ -48,32 +65,16 @@ theorem structural_invariant (ver : Version) (max : Nat) (m : Bool) (ops : List 
     | cons op ops ih => intro s h; exact ih _ (h.sstepSt op)
   exact this _ (SInv.new ver max m)
 
-/-- C07.2a counter = table occupancy, v4: holds along every run that avoids #11 (an id reused while
-    its QoS 2 flow awaits PUBCOMP) -/
-theorem counter_agrees_v4_partial (max : Nat) (m : Bool) (h1 : 1 ≤ max) (h2 : max ≤ u16Max) (ops : List LOp)
-    (hn : Avoids idReuseAwaitingComp (LState.new .v4 max m) ops) :
-    Inv3 (lrun (LState.new .v4 max m) ops) := by
-  apply inv3_run .v4 max m h1 h2 ops
-  exact Spec.Avoids.mk_or (avoids_unsafe_v4 _ rfl ops)
-    (Spec.Avoids.mk_or hn (avoids_v5only_v4 failedRecOrComp (by
-      intro l op h
-      cases op with
-      | inc p => cases p <;> simp [failedRecOrComp] at h <;> exact h.1
-      | _ => simp [failedRecOrComp] at h) _ rfl ops))
-
-/-- C07.2a both versions: additionally no CONNACK lowering the limit under what is in use (#17) and
-    no v5 failure-reason PUBREC / PUBCOMP (#15, #16) -/
+/-- C07.2a counter = table occupancy (`inflight` = occupied slots + release bits), both versions:
+    along every run that avoids #17 -/
 theorem counter_agrees_partial (ver : Version) (max : Nat) (m : Bool) (h1 : 1 ≤ max) (h2 : max ≤ u16Max) (ops : List LOp)
-    (hn : Avoids (fun l op => unsafeConnack l op ∨ idReuseAwaitingComp l op ∨ failedRecOrComp l op) (LState.new ver max m) ops) :
-    Inv3 (lrun (LState.new ver max m) ops) := inv3_run ver max m h1 h2 ops hn
+    (hn : Avoids unsafeConnack (LState.new ver max m) ops) :
+    Inv3 (lrun (LState.new ver max m) ops) := (inv23_run ver max m h1 h2 ops hn).2.2
 
-/-- the full clause is false in v5: after PUBREC with a failure reason `inflight = 1`, tables empty (#15) -/
-theorem counter_agrees_fails_v5 : ¬ Inv3 (lrun (LState.new .v5 2 false) run15) := by decide
-
-/-- … and in v4 once an id was reused (#11): replaying `[D(1), PubRel(1)]` with a PUBREC in between
-    sets release bit 1 twice but counts it twice -/
-theorem counter_agrees_fails_v4 :
-    ¬ Inv3 (lrun (LState.new .v4 3 false) (run11 ++ [.fail, .pend, .pend, .inc (.pubrec 1 0), .pend])) := by decide
+/-- … MQTT 3.1.1: full strength -/
+theorem counter_agrees_v4 (max : Nat) (m : Bool) (h1 : 1 ≤ max) (h2 : max ≤ u16Max) (ops : List LOp) :
+    Inv3 (lrun (LState.new .v4 max m) ops) :=
+  counter_agrees_partial .v4 max m h1 h2 ops (avoids_unsafe_v4 _ rfl ops)
 
 /-! ### clause 1: ids in range -/
 
@@ -81,21 +82,21 @@ theorem counter_agrees_fails_v4 :
     carries an id in `1 ..= max` -/
 theorem pkid_range_v4 (max : Nat) (m : Bool) (h1 : 1 ≤ max) (h2 : max ≤ u16Max) (ops : List LOp) :
     Along (fun _ g o _ g' => C07.range g o g' = true) (LState.new .v4 max m) (Ghost.init .v4 max m) ops := by
-  apply along_of_inv' B0 (fun l op => ¬ unsafeConnack l op) B0.step _ _ _ _ _ (B0.new .v4 max m h1 h2)
+  apply along_of_inv' B1 (fun l op => ¬ unsafeConnack l op) B1.step _ _ _ _ _ (B1.new .v4 max m h1 h2)
     (avoids_unsafe_v4 _ rfl ops).not_not
   intro l g op o hi _ ho _
   exact C07_range_ok hi op o ho
 
 /-- C07.1 (both versions; the limit is the negotiated one): along every run in which no CONNACK
-    lowers the limit under ids / window in use (#17) -/
+    lowers the limit under what is in use (#17) -/
 theorem pkid_range_partial (ver : Version) (max : Nat) (m : Bool) (h1 : 1 ≤ max) (h2 : max ≤ u16Max) (ops : List LOp)
     (hn : Avoids unsafeConnack (LState.new ver max m) ops) :
     Along (fun _ g o _ g' => C07.range g o g' = true) (LState.new ver max m) (Ghost.init ver max m) ops := by
-  apply along_of_inv' B0 (fun l op => ¬ unsafeConnack l op) B0.step _ _ _ _ _ (B0.new ver max m h1 h2) hn.not_not
+  apply along_of_inv' B1 (fun l op => ¬ unsafeConnack l op) B1.step _ _ _ _ _ (B1.new ver max m h1 h2) hn.not_not
   intro l g op o hi _ ho _
   exact C07_range_ok hi op o ho
 
-/-- the full clause is false in v5 (#17): after the limit was lowered to 2, id 3 goes out -/
+/-- the full clause is false in v5 (#17): the replayed publish keeps id 2 under a limit of 1 -/
 theorem pkid_range_fails :
     ¬ Along (fun _ g o _ g' => C07.range g o g' = true) (LState.new .v5 3 false) (Ghost.init .v5 3 false) run17 := by
   rw [along_iff_alongB (fun g o g' => C07.range g o g')]; decide
@@ -103,7 +104,7 @@ theorem pkid_range_fails :
 /-! ### clause 3: window -/
 
 /-- C07.3 state form (v4, full strength): occupied slots + release bits + requests still to be
-    replayed never exceed the configured limit -/
+    replayed (+ the parked publish) never exceed the configured limit -/
 theorem window_bound_v4 (max : Nat) (m : Bool) (h1 : 1 ≤ max) (h2 : max ≤ u16Max) (ops : List LOp) :
     occ (lrun (LState.new .v4 max m) ops).st.outgoingPub + relCount (lrun (LState.new .v4 max m) ops).st.outgoingRel +
       (lrun (LState.new .v4 max m) ops).pending.length ≤ max := by
@@ -122,14 +123,18 @@ theorem window_bound_state_partial (ver : Version) (max : Nat) (m : Bool) (h1 : 
   omega
 
 /-- C07.3 wire form: the number of publishes on the wire without their final acknowledgement
-    never exceeds the limit — along runs without #17 and without a PUBCOMP releasing a parked
-    publish (#4/#13: that publish goes out unrecorded) -/
+    never exceeds the limit — along runs without #17 -/
 theorem window_bound_partial (ver : Version) (max : Nat) (m : Bool) (h1 : 1 ≤ max) (h2 : max ≤ u16Max) (ops : List LOp)
-    (hn : Avoids c02Trigger (LState.new ver max m) ops) :
+    (hn : Avoids unsafeConnack (LState.new ver max m) ops) :
     Along (fun _ _ _ _ g' => C07.window g' = true) (LState.new ver max m) (Ghost.init ver max m) ops := by
-  apply along_of_inv' B1 (fun l op => ¬ c02Trigger l op) B1.step _ _ _ _ _ (B1.new ver max m h1 h2) hn.not_not
+  apply along_of_inv' B1 (fun l op => ¬ unsafeConnack l op) B1.step _ _ _ _ _ (B1.new ver max m h1 h2) hn.not_not
   intro l g op o _ _ _ hi'
   exact C07_window_ok hi'
+
+/-- … MQTT 3.1.1: full strength -/
+theorem window_bound_wire_v4 (max : Nat) (m : Bool) (h1 : 1 ≤ max) (h2 : max ≤ u16Max) (ops : List LOp) :
+    Along (fun _ _ _ _ g' => C07.window g' = true) (LState.new .v4 max m) (Ghost.init .v4 max m) ops :=
+  window_bound_partial .v4 max m h1 h2 ops (avoids_unsafe_v4 _ rfl ops)
 
 /-- the full clause is false in v5 (#17): two unacknowledged publishes under a limit lowered to 1 -/
 theorem window_bound_fails :
@@ -139,72 +144,55 @@ theorem window_bound_fails :
 
 /-! ### clause 2: distinct ids -/
 
-/-- C07.2 state form: no id is at the same time in a slot, in a release bit or in `pending` —
-    along runs without #17 and #11 -/
+/-- C07.2 state form: no id is at the same time in a slot, in a release bit or in `pending`, and
+    nothing is parked while `pending` is not empty — along runs without #17 -/
 theorem pkid_unique_state_partial (ver : Version) (max : Nat) (m : Bool) (h1 : 1 ≤ max) (h2 : max ≤ u16Max)
-    (ops : List LOp)
-    (hn : Avoids (fun l op => unsafeConnack l op ∨ idReuseAwaitingComp l op) (LState.new ver max m) ops) :
-    Inv2 (lrun (LState.new ver max m) ops) := (inv2_run ver max m h1 h2 ops hn).2
+    (ops : List LOp) (hn : Avoids unsafeConnack (LState.new ver max m) ops) :
+    Inv2 (lrun (LState.new ver max m) ops) := (inv23_run ver max m h1 h2 ops hn).2.1
+
+/-- … MQTT 3.1.1: full strength -/
+theorem pkid_unique_state_v4 (max : Nat) (m : Bool) (h1 : 1 ≤ max) (h2 : max ≤ u16Max) (ops : List LOp) :
+    Inv2 (lrun (LState.new .v4 max m) ops) :=
+  pkid_unique_state_partial .v4 max m h1 h2 ops (avoids_unsafe_v4 _ rfl ops)
 
 /-- C07.2 wire form: no two simultaneously unacknowledged publishes (final ack = PUBACK resp.
-    PUBCOMP) carry the same id — along runs without #17, #4/#13 and #11 -/
+    PUBCOMP) carry the same id — along runs without #17 -/
 theorem pkid_unique_partial (ver : Version) (max : Nat) (m : Bool) (h1 : 1 ≤ max) (h2 : max ≤ u16Max) (ops : List LOp)
-    (hn : Avoids (fun l op => c02Trigger l op ∨ idReuseAwaitingComp l op) (LState.new ver max m) ops) :
+    (hn : Avoids unsafeConnack (LState.new ver max m) ops) :
     Along (fun _ _ _ _ g' => C07.dupId g' = true) (LState.new ver max m) (Ghost.init ver max m) ops := by
-  apply along_of_inv' (fun l g => B1 l g ∧ Inv2 l) (fun l op => ¬ (c02Trigger l op ∨ idReuseAwaitingComp l op))
-    _ _ _ _ _ _ ⟨B1.new ver max m h1 h2, Inv2.new ver max m⟩ hn.not_not
-  · intro l g op hi hok
-    have h1' := hi.1.step l g op (fun h => hok (Or.inl h))
-    have h2' := hi.2.lstep hi.1.b0.inv0 op (fun h => hok (Or.inr h))
-    cases ho : (lstep l op).2 with
-    | none => rw [ho] at h1'; exact ⟨h1', h2'⟩
-    | some o => rw [ho] at h1'; exact ⟨h1', h2'⟩
-  · intro l g op o _ _ _ hi'
-    exact C07_dupId_ok hi'.1 hi'.2
+  apply along_of_inv' B1 (fun l op => ¬ unsafeConnack l op) B1.step _ _ _ _ _ (B1.new ver max m h1 h2) hn.not_not
+  intro l g op o _ _ _ hi'
+  exact C07_dupId_ok hi'
 
-/-- the full clause is false (#11, v4): id 1 is given to a new publish while the QoS 2 flow on
-    id 1 still awaits PUBCOMP -/
-theorem pkid_unique_fails :
-    ¬ Along (fun _ _ _ _ g' => C07.dupId g' = true) (LState.new .v4 3 false) (Ghost.init .v4 3 false) run11 := by
-  rw [along_iff_alongB (fun _ _ g' => C07.dupId g')]; decide
+/-- … MQTT 3.1.1: full strength -/
+theorem pkid_unique_v4 (max : Nat) (m : Bool) (h1 : 1 ≤ max) (h2 : max ≤ u16Max) (ops : List LOp) :
+    Along (fun _ _ _ _ g' => C07.dupId g' = true) (LState.new .v4 max m) (Ghost.init .v4 max m) ops :=
+  pkid_unique_partial .v4 max m h1 h2 ops (avoids_unsafe_v4 _ rfl ops)
 
 /-! ### clause 5: a collision is resolvable -/
 
-/-- C07.5 state form: the id a parked publish waits for is held by a slot or a release bit —
-    along runs without #17, #12 and #14 -/
+/-- C07.5 state form (v4, full strength): the id a parked publish waits for is held by a slot or
+    a release bit — the acknowledgement that frees it releases the publish -/
+theorem collision_resolvable_state_v4 (max : Nat) (m : Bool) (h1 : 1 ≤ max) (h2 : max ≤ u16Max) (ops : List LOp) :
+    Inv4 (lrun (LState.new .v4 max m) ops) := inv4_run .v4 max m h1 h2 ops (avoids_unsafe_v4 _ rfl ops)
+
+/-- C07.5 state form, both versions: along runs without #17 -/
 theorem collision_resolvable_state_partial (ver : Version) (max : Nat) (m : Bool) (h1 : 1 ≤ max) (h2 : max ≤ u16Max)
-    (ops : List LOp)
-    (hn : Avoids (fun l op => unsafeConnack l op ∨ cleanWithCollision l op ∨ failedAckOnCollision l op)
-      (LState.new ver max m) ops) :
+    (ops : List LOp) (hn : Avoids unsafeConnack (LState.new ver max m) ops) :
     Inv4 (lrun (LState.new ver max m) ops) := inv4_run ver max m h1 h2 ops hn
 
-/-- C07.5 wire form: … is held by an unacknowledged publish of the connection -/
+/-- C07.5 wire form: … is held by an unacknowledged publish of the connection — along runs without #17 -/
 theorem collision_resolvable_partial (ver : Version) (max : Nat) (m : Bool) (h1 : 1 ≤ max) (h2 : max ≤ u16Max)
-    (ops : List LOp)
-    (hn : Avoids (fun l op => c02Trigger l op ∨ cleanWithCollision l op ∨ failedAckOnCollision l op)
-      (LState.new ver max m) ops) :
+    (ops : List LOp) (hn : Avoids unsafeConnack (LState.new ver max m) ops) :
     Along (fun _ _ o _ g' => C07.resolvable g' o = true) (LState.new ver max m) (Ghost.init ver max m) ops := by
-  apply along_of_inv' (fun l g => B1 l g ∧ Inv4 l)
-    (fun l op => ¬ (c02Trigger l op ∨ cleanWithCollision l op ∨ failedAckOnCollision l op))
-    _ _ _ _ _ _ ⟨B1.new ver max m h1 h2, Inv4.new ver max m⟩ hn.not_not
-  · intro l g op hi hok
-    have h1' := hi.1.step l g op (fun h => hok (Or.inl h))
-    have h2' := Inv4.lstep hi.1.b0.inv0 hi.2 op (fun h => hok (Or.inr (Or.inl h))) (fun h => hok (Or.inr (Or.inr h)))
-    cases ho : (lstep l op).2 with
-    | none => rw [ho] at h1'; exact ⟨h1', h2'⟩
-    | some o => rw [ho] at h1'; exact ⟨h1', h2'⟩
-  · intro l g op o _ _ _ hi'
-    exact C07_resolvable_ok hi'.1 hi'.2 o (step_fields g o).2.1.symm
+  apply along_of_inv' B1 (fun l op => ¬ unsafeConnack l op) B1.step _ _ _ _ _ (B1.new ver max m h1 h2) hn.not_not
+  intro l g op o _ _ _ hi'
+  exact C07_resolvable_ok hi' o (step_fields g o).2.1.symm
 
-/-- the full clause is false (#12, v4): `clean()` empties the tables but leaves the parked publish -/
-theorem collision_resolvable_fails_clean :
-    ¬ Along (fun _ _ o _ g' => C07.resolvable g' o = true) (LState.new .v4 2 false) (Ghost.init .v4 2 false) run12 := by
-  rw [along_iff_alongB (fun _ o g' => C07.resolvable g' o)]; decide
-
-/-- … and (#14, v5): a failure-reason PUBACK frees the slot and skips the collision check -/
-theorem collision_resolvable_fails_v5 :
-    ¬ Along (fun _ _ o _ g' => C07.resolvable g' o = true) (LState.new .v5 2 false) (Ghost.init .v5 2 false) run14 := by
-  rw [along_iff_alongB (fun _ o g' => C07.resolvable g' o)]; decide
+/-- … MQTT 3.1.1: full strength -/
+theorem collision_resolvable_v4 (max : Nat) (m : Bool) (h1 : 1 ≤ max) (h2 : max ≤ u16Max) (ops : List LOp) :
+    Along (fun _ _ o _ g' => C07.resolvable g' o = true) (LState.new .v4 max m) (Ghost.init .v4 max m) ops :=
+  collision_resolvable_partial .v4 max m h1 h2 ops (avoids_unsafe_v4 _ rfl ops)
 
 /-! ### clause 4: the gate -/
 
@@ -215,65 +203,115 @@ theorem request_taken_iff_gate_open (l : LState) (u : UserReq) :
     (lop? l (.user u)).isSome = true ↔
       (l.pending = [] ∧ l.st.inflight < l.st.maxInflight ∧ l.st.collision = none) := by
   obtain ⟨s, pd⟩ := l
-  simp only [lop?, selectEnabled]
+  simp only [lop?, selectEnabled, windowOpen]
   cases pd with
   | nil =>
     by_cases hc : s.collision = none
     · by_cases hi : s.inflight < s.maxInflight
       · have : ¬ (s.inflight ≥ s.maxInflight) := by omega
-        simp [hc, hi, this]
+        simp [pendingReady, hc, hi, this]
       · have : s.inflight ≥ s.maxInflight := by omega
-        simp [hc, hi, this]
+        simp [pendingReady, hc, hi, this]
     · have hs : s.collision.isSome = true := by
         cases h : s.collision with
         | none => exact absurd h hc
         | some c => rfl
-      simp [hc, hs]
+      simp [pendingReady, hc, hs]
   | cons r rest => simp
 
-/-- C07.4b flow resumes: whenever fewer publishes than the limit are unacknowledged, nothing is
-    parked and nothing pending, the gate is open — along runs without #17, #4/#13, #11, #15/#16 -/
-theorem flow_resumes_partial (ver : Version) (max : Nat) (m : Bool) (h1 : 1 ≤ max) (h2 : max ≤ u16Max) (ops : List LOp)
-    (hn : Avoids (fun l op => c02Trigger l op ∨ idReuseAwaitingComp l op ∨ failedRecOrComp l op) (LState.new ver max m) ops) :
-    Along (fun _ _ o _ g' => C07.resumes g' o = true) (LState.new ver max m) (Ghost.init ver max m) ops := by
-  apply along_of_inv' (fun l g => B1 l g ∧ Inv2 l ∧ Inv3 l)
-    (fun l op => ¬ (c02Trigger l op ∨ idReuseAwaitingComp l op ∨ failedRecOrComp l op))
-    _ _ _ _ _ _ ⟨B1.new ver max m h1 h2, Inv2.new ver max m, Inv3.new ver max m⟩ hn.not_not
-  · intro l g op hi hok
-    have h1' := hi.1.step l g op (fun h => hok (Or.inl h))
-    have h2' := hi.2.1.lstep hi.1.b0.inv0 op (fun h => hok (Or.inr (Or.inl h)))
-    have h3' := Inv3.lstep hi.1.b0.inv0 hi.2.1 hi.2.2 op (fun h => hok (Or.inr (Or.inr h)))
-    cases ho : (lstep l op).2 with
-    | none => rw [ho] at h1'; exact ⟨h1', h2', h3'⟩
-    | some o => rw [ho] at h1'; exact ⟨h1', h2', h3'⟩
-  · intro l g op o _ _ _ hi'
-    exact C07_resumes_ok hi'.1 hi'.2.2 o (step_fields g o).2.2.symm
+/-- C07.4a' (full strength): the head of `pending` is taken iff it is a retransmission (owns a packet
+    id) or the window is open: retransmissions are never held back, a request that merely waited
+    in `pending` (the publish that was parked when the connection failed) obeys flow control -/
+theorem pending_taken_iff_ready (s : State) (r : Request) (rest : List Request) :
+    (lop? ⟨s, r :: rest⟩ .pend).isSome = true ↔
+      ((∃ p, r = .publish p ∧ p.pkid ≠ 0) ∨ (∃ i, r = .pubrel i) ∨ (s.inflight < s.maxInflight ∧ s.collision = none)) := by
+  have hw : windowOpen s = true ↔ (s.inflight < s.maxInflight ∧ s.collision = none) := by
+    unfold windowOpen
+    cases hc : s.collision <;> by_cases hi : s.inflight < s.maxInflight <;> simp [hi] <;> omega
+  simp only [lop?]
+  cases r with
+  | publish p =>
+    by_cases hp : p.pkid = 0
+    · simp [pendingReady, hp, hw]
+    · simp [pendingReady, hp]
+  | pubrel i => simp [pendingReady]
+  | subscribe n => simp [pendingReady, hw]
+  | unsubscribe => simp [pendingReady, hw]
+  | pingreq => simp [pendingReady, hw]
+  | disconnect => simp [pendingReady, hw]
+  | puback j => simp [pendingReady, hw]
+  | pubrec j => simp [pendingReady, hw]
+  | other => simp [pendingReady, hw]
 
-/-- the full clause is false in v5 (#15): max = 1, one QoS 2 publish, PUBREC with a failure
-    reason — nothing is unacknowledged any more but `inflight` stays 1: the gate never reopens -/
-theorem flow_resumes_fails :
-    ¬ Along (fun _ _ o _ g' => C07.resumes g' o = true) (LState.new .v5 1 false) (Ghost.init .v5 1 false) run15 := by
-  rw [along_iff_alongB (fun _ o g' => C07.resumes g' o)]; decide
+/-- C07.4b flow resumes: whenever fewer publishes than the limit are unacknowledged, nothing is
+    parked and nothing pending, the gate is open — along runs without #17 -/
+theorem flow_resumes_partial (ver : Version) (max : Nat) (m : Bool) (h1 : 1 ≤ max) (h2 : max ≤ u16Max) (ops : List LOp)
+    (hn : Avoids unsafeConnack (LState.new ver max m) ops) :
+    Along (fun _ _ o _ g' => C07.resumes g' o = true) (LState.new ver max m) (Ghost.init ver max m) ops := by
+  apply along_of_inv' B1 (fun l op => ¬ unsafeConnack l op) B1.step _ _ _ _ _ (B1.new ver max m h1 h2) hn.not_not
+  intro l g op o _ _ _ hi'
+  exact C07_resumes_ok hi' o (step_fields g o).2.2.symm
+
+/-- … MQTT 3.1.1: full strength -/
+theorem flow_resumes_v4 (max : Nat) (m : Bool) (h1 : 1 ≤ max) (h2 : max ≤ u16Max) (ops : List LOp) :
+    Along (fun _ _ o _ g' => C07.resumes g' o = true) (LState.new .v4 max m) (Ghost.init .v4 max m) ops :=
+  flow_resumes_partial .v4 max m h1 h2 ops (avoids_unsafe_v4 _ rfl ops)
+
+/-- C07.4c (v4 full strength; both versions along runs without #17) the unnumbered publish waiting
+    in `pending` cannot starve: whenever it is the head of `pending`, the window is open -/
+theorem parked_replay_never_blocked (ver : Version) (max : Nat) (m : Bool) (h1 : 1 ≤ max) (h2 : max ≤ u16Max)
+    (ops : List LOp) (hn : Avoids unsafeConnack (LState.new ver max m) ops) (r : Request) (rest : List Request)
+    (hp : (lrun (LState.new ver max m) ops).pending = r :: rest) :
+    pendingReady (lrun (LState.new ver max m) ops).st (lrun (LState.new ver max m) ops).pending = true := by
+  obtain ⟨i0, i2, _⟩ := inv23_run ver max m h1 h2 ops hn
+  generalize lrun (LState.new ver max m) ops = l at *
+  obtain ⟨s, pd⟩ := l
+  simp only at hp
+  subst hp
+  have hcol : s.collision = none := i2.col_none
+  have hw := i0.window
+  simp only [List.length_cons] at hw
+  have hopen : windowOpen s = true := by
+    unfold windowOpen
+    have : ¬ s.inflight ≥ s.maxInflight := by omega
+    simp [hcol, this]
+  cases r <;> simp [pendingReady, hopen]
 
 /-! ### the monitor as a whole -/
 
 /-- the executable monitor `C07.check` (the one evaluated on traces of the real `MqttState`)
-    accepts every trace of the model that avoids the C07 triggers -/
+    accepts every trace of the model that avoids #17 -/
 theorem monitor_passes_partial (ver : Version) (max : Nat) (m : Bool) (h1 : 1 ≤ max) (h2 : max ≤ u16Max) (ops : List LOp)
-    (hn : Avoids c07Trigger (LState.new ver max m) ops) :
+    (hn : Avoids unsafeConnack (LState.new ver max m) ops) :
     C07.check (Ghost.init ver max m) (ltrace (LState.new ver max m) ops) = .ok :=
   runChecks_ok _ _ _ _ _ _ (c07_checks_along ver max m h1 h2 ops hn)
 
+/-- MQTT 3.1.1: every trace (full strength) -/
+theorem monitor_passes_v4 (max : Nat) (m : Bool) (h1 : 1 ≤ max) (h2 : max ≤ u16Max) (ops : List LOp) :
+    C07.check (Ghost.init .v4 max m) (ltrace (LState.new .v4 max m) ops) = .ok :=
+  monitor_passes_partial .v4 max m h1 h2 ops (avoids_unsafe_v4 _ rfl ops)
+
+/-! ### regression examples: the runs on which the clauses used to fail -/
+example : C07.check (Ghost.init .v4 3 false) (ltrace (LState.new .v4 3 false) run11) = .ok := by decide
+example : C07.check (Ghost.init .v4 2 false) (ltrace (LState.new .v4 2 false) (run12 ++ [.pend, .pend, .inc (.puback 1 0)])) = .ok := by
+  decide
+example : C07.check (Ghost.init .v5 2 false) (ltrace (LState.new .v5 2 false) run14) = .ok := by decide
+example : C07.check (Ghost.init .v5 1 false) (ltrace (LState.new .v5 1 false) run15) = .ok := by decide
+example : C07.check (Ghost.init .v5 3 false) (ltrace (LState.new .v5 3 false) run17ok) = .ok := by decide
+example : C07.check (Ghost.init .v4 3 false) (ltrace (LState.new .v4 3 false) run24) = .ok := by decide
+example : (lrun (LState.new .v4 3 false) run11).st.collision.isSome = true := by decide
+example : (lrun (LState.new .v5 2 false) run14).st.collision = none := by decide
+example : (lrun (LState.new .v5 1 false) run15).st.inflight = 0 := by decide
+example : (lrun (LState.new .v4 3 false) (run24.take 11)).pending = [.pubrel 1, .pubrel 2, .publish ⟨1, 0, 4, none⟩] := by decide
+example : (lrun (LState.new .v4 3 false) run24).st.collision = some ⟨1, 2, 4, none⟩ := by decide
+
 /-! ### non-vacuity: each hypothesis is met by a run that exercises the clause -/
-example : Avoids c07Trigger (LState.new .v4 2 false) runOk := by decide
-example : Avoids c07Trigger (LState.new .v5 2 false) runOk := by decide
+example : Avoids unsafeConnack (LState.new .v5 2 false) runOk := by decide
+example : Avoids unsafeConnack (LState.new .v5 3 false) run17ok := by decide
+example : Avoids unsafeConnack (LState.new .v5 2 false) run14 := by decide
 example : (lrun (LState.new .v4 2 false) (runOk.take 4)).st.collision.isSome = true := by decide
 example : Avoids unsafeConnack (LState.new .v5 10 false)
     [.inc (.connack true false (some 3) (some 5)), .user (.publish 1 1), .user (.publish 1 2)] := by decide
 example : ¬ Avoids unsafeConnack (LState.new .v5 3 false) run17 := by decide
-example : ¬ Avoids idReuseAwaitingComp (LState.new .v4 3 false) run11 := by decide
-example : ¬ Avoids cleanWithCollision (LState.new .v4 2 false) run12 := by decide
-example : ¬ Avoids failedAckOnCollision (LState.new .v5 2 false) run14 := by decide
-example : ¬ Avoids failedRecOrComp (LState.new .v5 2 false) run15 := by decide
 
 end C07
